@@ -643,9 +643,9 @@ def run(chk) -> None:
     check_splitter(chk)
     for rule, n in (("writer-layout", 17), ("writer-reader-columns", 15), ("ter-line", 5), ("record-order", 6), ("field-map-pdb-to-cif", 2), ("field-map-cif-to-pdb", 1), ("value-domain", 1)):
         chk.floor(rule, n)
-    from sa import memoshare
+    from checks import w3cross
 
-    memoshare.check(chk, "C09")  # a memoised function must not hand one mutable object to every caller
+    w3cross.check(chk, "C09", untouched=(("parser_v2", "write_pdb"), ("parser_v2", "write_cif")))  # state that survives a call: shared memo results, module-level containers, arguments
 
 
 MANIFEST_ENTRY = {
